@@ -6,6 +6,7 @@ mod models;
 mod prob;
 mod report;
 mod sc;
+mod vmodel;
 
 fn arg_after(args: &[String], key: &str) -> Option<String> {
     args.iter().position(|a| a == key).and_then(|i| args.get(i + 1).cloned())
@@ -28,6 +29,7 @@ fn main() {
             };
             lattice::run(path, &opts)
         }
+        "model" => vmodel::run(args.get(2).expect("export file")),
         "pbuilder" => pbuilder::run(args.get(2).expect("export file")),
         "mbuilder" => mbuilder::run(args.get(2).expect("export file")),
         other => {
